@@ -45,6 +45,9 @@ def hunk_lines(shape, os_, ns, long_mask, frag="", moved=False):
     lines = [hh]
     for i, c in enumerate(shape):
         content = (LONG if long_mask[i] else "x%d" % i)
+        if moved == "pair":
+            # similar lines, so that removed and added lines are partners (shown on one row side by side)
+            content = "same same same same x%d" % i
         if moved and c == "-":
             # a removed line in git's color-moved colours keeps its raw text ("raw line" path)
             lines.append("\x1b[1;35m-" + content + "\x1b[m")
@@ -248,7 +251,8 @@ def build_input(hunks_by_file):
         for h in hs:
             os_, ns, shape, mask = h[:4]
             opt = h[4] if len(h) > 4 else ""
-            lines += hunk_lines(shape, os_, ns, mask, frag=FRAG if "frag" in opt else "", moved="moved" in opt)
+            lines += hunk_lines(shape, os_, ns, mask, frag=FRAG if "frag" in opt else "",
+                                moved=("pair" if "movedpair" in opt else "moved" in opt))
             flat.append((path, os_, ns, shape))
     return ("\n".join(lines) + "\n").encode(), flat
 
@@ -329,6 +333,7 @@ def cases_for(tier, view):
     for sh in list(shapes(3)) + ["-- +", " --++ "]:
         out.append([("f.txt", [(5, 7, sh, [False] * len(sh), "frag")])])
         out.append([("f.txt", [(10, 20, sh, [False] * len(sh), "moved")])])
+        out.append([("f.txt", [(10, 20, sh, [False] * len(sh), "movedpair")])])
         out.append([("f.txt", [(10, 20, sh, [False] * len(sh), "moved"), (40, 50, sh, [False] * len(sh), "frag")])])
     # chaining: two hunks in one file, and two files, over all pairs of shapes of length <= 2/3
     small = list(shapes(2 if tier == "quick" else 3))
